@@ -638,55 +638,140 @@ def random_schedule(m: Machine, rng, scn, paused):
     return letters, recs
 
 
+def complete(m: Machine, letters, toggles=2):
+    """run the remaining tasks to their end with the default policy (first enabled task; `resume` when only
+    blocked drain waiters are left); returns the letters used"""
+    extra = []
+    while True:
+        opts = options(m, 0)
+        if not opts:
+            break
+        m.step(opts[0])
+        extra.append(opts[0])
+    return extra
+
+
+def explore_scenario(m, scn, paused, bound, cmp_, fails, visited=None, max_paths=None, nstat=None):
+    """exploration + comparison + (on the same executions) the oracle's sentences"""
+    judge_it = consistent(scn[1])
+
+    def on_path(letters, recs, complete_):
+        cmp_.add(scn, paused, letters, recs)
+        if nstat is not None:
+            nstat["paths"] = nstat.get("paths", 0) + 1
+        if judge_it and complete_ and m.all_done():
+            sent = judge(m, scn[1])
+            if nstat is not None:
+                nstat["judged"] = nstat.get("judged", 0) + 1
+            if sent:
+                fails.append(failure(m, scn, paused, letters, sent))
+
+    return explore(m, scn, paused, bound, visited=visited, max_paths=max_paths, on_path=on_path)
+
+
+def _worker(job):
+    """thorough tier: one (scenario, initial back-pressure) in its own process"""
+    idx, paused, bound, max_paths, seed = job
+    scn = scenarios("thorough")[idx]
+    m = Machine()
+    stats, fails, nstat = {}, [], {}
+    cmp_ = Comparer(stats)
+    try:
+        explore_scenario(m, scn, paused, bound, cmp_, fails, visited=set(), max_paths=max_paths, nstat=nstat)
+        cmp_.flush()
+    finally:
+        m.finish()
+        m.close()
+    keep = {}
+    for f in fails:
+        keep.setdefault(f["signature"], [])
+        if len(keep[f["signature"]]) < 3:
+            keep[f["signature"]].append(f)
+    return {"scenario": scn[0], "paused": paused, "evals": cmp_.evals, "shapes": {hash(x) for x in cmp_.shapes},
+            "stats": stats, "dis": cmp_.dis[:5], "ndis": len(cmp_.dis), "fails": [f for v in keep.values() for f in v],
+            "nfails": len(fails), "nstat": nstat, "samples": cmp_.samples}
+
+
+def merge_stats(dst, src):
+    for k, v in src.items():
+        if isinstance(v, dict):
+            merge_stats(dst.setdefault(k, {}), v)
+        else:
+            dst[k] = dst.get(k, 0) + v
+
+
 def correspondence(ctx):
     m = Machine()
     stats = {}
     cmp_ = Comparer(stats)
+    fails, nstat = [], {}
+    shapes_extra = set()
     try:
         # corpus first (also letters that are NOT enabled: they must change nothing on either side)
         for e in corpus_entries():
             scn, paused, letters = entry_scn(e)
             cmp_.add(scn, paused, letters, run_letters(m, scn, paused, letters))
-        ctx.c14_paths = []  # reused by the oracle: (scn, paused, letters, trace summary)
-        if ctx.tier == "quick":
-            for scn in scenarios("quick"):
-                for paused in (False, True):
-                    explore(m, scn, paused, 6, on_path=lambda l, r, c, scn=scn, paused=paused: cmp_.add(scn, paused, l, r))
-            # random deeper schedules of the long scenarios
-            long_ = [s for s in scenarios("quick") if "resend" in s[0] or "logout" in s[0] or "logon" in s[0]]
-            for _ in range(600):
-                scn = ctx.rng.choice(long_)
-                paused = ctx.rng.random() < 0.5
-                scn2 = (scn[0], scn[1], scn[2], scn[3], 2)
-                l, r = random_schedule(m, ctx.rng, scn2, paused)
-                cmp_.add(scn2, paused, l, r)
-        else:
-            thorough_explore(ctx, cmp_)
+        quick = scenarios("quick")
+        for scn in quick:
+            for paused in (False, True):
+                explore_scenario(m, scn, paused, 6, cmp_, fails, nstat=nstat)
+        # uniformly random maximal schedules of the long scenarios (beyond the branching bound)
+        long_ = [s for s in quick if "resend" in s[0] or "logout" in s[0] or "logon" in s[0]]
+        for _ in range(ctx.n(600, 3000)):
+            scn = ctx.rng.choice(long_)
+            paused = ctx.rng.random() < 0.5
+            scn2 = (scn[0], scn[1], scn[2], scn[3], 2)
+            l, r = random_schedule(m, ctx.rng, scn2, paused)
+            cmp_.add(scn2, paused, l, r)
+            if consistent(scn2[1]) and m.all_done():
+                sent = judge(m, scn2[1])
+                nstat["judged"] = nstat.get("judged", 0) + 1
+                if sent:
+                    fails.append(failure(m, scn2, paused, l, sent))
         cmp_.flush()
+        evals, dis, samples = cmp_.evals, list(cmp_.dis), list(cmp_.samples)
+        if ctx.tier == "thorough":
+            import multiprocessing as mp
+
+            n3 = len(scenarios("thorough"))
+            jobs = [(i, p, 9, 9000, ctx.seed) for i in range(n3) for p in (False, True)]
+            with mp.Pool(min(16, os.cpu_count() or 4)) as pool:
+                for res in pool.imap_unordered(_worker, jobs):
+                    evals += res["evals"]
+                    dis += res["dis"]
+                    shapes_extra |= res["shapes"]
+                    merge_stats(stats, res["stats"])
+                    merge_stats(nstat, res["nstat"])
+                    fails += res["fails"]
+                    samples += res["samples"][:1]
+                    if res["ndis"]:
+                        ctx.note(f"{res['scenario']} paused={res['paused']}: {res['ndis']} disagreements")
+        ctx.c14_failures = fails
+        ctx.c14_nstat = nstat
+        stats["oracle_on_same_runs"] = nstat
         return {
-            "evaluations": cmp_.evals,
-            "distinct_nontrivial": len(cmp_.shapes),
+            "evaluations": evals,
+            "distinct_nontrivial": len({hash(x) for x in cmp_.shapes} | shapes_extra),
             "rule": "every schedule = (initial connection incl. journal, task set, initial back-pressure, letters); "
                     "quick: all schedules of {2 senders} x7, {sender + tick} x4, {sender + reader with one inbound frame: "
                     "Logon x3, TestRequest, ResendRequest x8 (1-3 journaled messages, declined, session rows, holes, beyond, "
                     "while awaiting), high seqnum, app, Heartbeat x2, Logout, GapFill, SequenceReset, CompID mismatch} and "
                     "{reader + tick}, each with the transport initially free / paused, branching over every enabled letter "
-                    "at the first 6 nodes that offer a choice and completed first-enabled afterwards, plus 600 uniformly "
-                    "random maximal schedules of the long scenarios; thorough: the same with bound 9 plus eleven 3-task "
-                    "scenarios with state hashing, in 16 processes.  evaluations = compared steps (one per letter); "
-                    "distinct = distinct (scenario, per-step effect kinds, per-step suspension points) sequences.",
-            "samples": cmp_.samples,
+                    "at the first 6 nodes that offer a choice and completed first-enabled afterwards, plus uniformly random "
+                    "maximal schedules of the long scenarios; thorough: the same scenario list extended by eleven 3-task "
+                    "scenarios, bound 9, state hashing (a node whose (connection, journal, suspension points, queue, per-task "
+                    "progress) was seen is not expanded again), <= 9000 schedules per (scenario, back-pressure), one process "
+                    "each.  evaluations = compared steps (one per letter: effects of the step, whole connection + journal, "
+                    "suspension point of every task, drain FIFO, rewind / restore counts); distinct = distinct (scenario, "
+                    "per-step effect kinds, per-step suspension points) sequences.",
+            "samples": samples[:6],
             "exhaustive": True,
             "distribution": stats,
-            "disagreements": cmp_.dis,
+            "disagreements": dis,
         }
     finally:
         m.finish()
         m.close()
-
-
-def thorough_explore(ctx, cmp_):
-    raise NotImplementedError
 
 
 # ------------------------------------------------------------------------------------------------
@@ -773,18 +858,105 @@ def classify(m: Machine, sentences):
     return "C14-" + "+".join(kinds)
 
 
-def oracle_run(m: Machine, scn, paused, letters):
-    """run the schedule to its end on the real coroutines and judge it; returns a failure dict or None"""
-    name, a, sr, tasks, _ = scn
-    m.start(a, sr, paused, tasks)
-    for l in letters:
-        m.step(l)
-    sent = judge(m, a)
-    if not sent:
-        return None
-    return {"signature": classify(m, sent), "what": "; ".join(f"{s}: {d}" for s, d in sent[:6]),
+def failure(m: Machine, scn, paused, letters, sent):
+    return {"signature": classify(m, sent), "what": "; ".join(f"{s_}: {d}" for s_, d in sent[:6]),
             "input": make_entry(scn, paused, letters),
             "expected": "new messages strictly increasing, no reuse, every frame journaled, no duplicate error, "
                         "stored next = next_num_out = highest sent + 1",
             "observed": {"sentences": sent[:10], "final": m.dump()[:600],
-                         "events": [t[:2] + (t[2] if t[0] != "write" else S.bytes_to_fields(t[2])[5:6],) for t in m.trace][:40]}}
+                         "events": [list(t[:2]) + [t[2] if t[0] != "write" else S.bytes_to_fields(t[2])[5:6]]
+                                    for t in m.trace][:40]}}
+
+
+def oracle_run(m: Machine, scn, paused, letters):
+    """run the schedule on the real coroutines (remaining tasks are run to their end) and judge it;
+    returns a failure dict or None"""
+    name, a, sr, tasks, _ = scn
+    m.start(a, sr, paused, tasks)
+    for l in letters:
+        m.step(l)
+    letters = list(letters) + complete(m, letters)
+    sent = judge(m, a)
+    if not sent:
+        return None
+    return failure(m, scn, paused, letters, sent)
+
+
+def oracle(ctx, disagreements, broken):
+    m = Machine()
+    failures, stats = [], {"replayed_corpus": 0, "replayed_disagreements": 0, "explored": 0, "random": 0}
+    try:
+        # the witnesses of the open findings and the rest of the corpus
+        for e in corpus_entries():
+            scn, paused, letters = entry_scn(e)
+            if not consistent(scn[1]):
+                continue
+            stats["replayed_corpus"] += 1
+            f = oracle_run(m, scn, paused, letters)
+            if f:
+                failures.append(f)
+        # the disagreeing schedules first
+        for d in disagreements[:300]:
+            scn, paused, letters = entry_scn(d["input"])
+            if not consistent(scn[1]):
+                continue
+            stats["replayed_disagreements"] += 1
+            f = oracle_run(m, scn, paused, letters)
+            if f:
+                failures.append(f)
+        cached = getattr(ctx, "c14_failures", None)
+        if cached is not None and not broken:
+            failures += cached
+            stats["explored"] = getattr(ctx, "c14_nstat", {}).get("judged", 0)
+        else:
+            # search harder: deeper branching on every scenario, then random schedules of all scenarios
+            scns = [s_ for s_ in scenarios("thorough") if consistent(s_[1])]
+            for scn in scns:
+                for paused in (False, True):
+                    paths = []
+                    explore(m, scn, paused, 8 if len(scn[3]) == 2 else 6, on_path=lambda l, r, c: paths.append(l),
+                            max_paths=ctx.n(1500, 6000))
+                    for l in paths:
+                        stats["explored"] += 1
+                        f = oracle_run(m, scn, paused, l)
+                        if f:
+                            failures.append(f)
+            for _ in range(ctx.n(3000, 20000)):
+                scn = ctx.rng.choice(scns)
+                paused = ctx.rng.random() < 0.5
+                scn2 = (scn[0], scn[1], scn[2], scn[3], 3)
+                l, _r = random_schedule(m, ctx.rng, scn2, paused)
+                stats["random"] += 1
+                if m.all_done():
+                    sent = judge(m, scn2[1])
+                    if sent:
+                        failures.append(failure(m, scn2, paused, l, sent))
+        # shortest schedule first within a signature; a few per signature are enough
+        failures.sort(key=lambda f: (f["signature"], len(f["input"]["letters"])))
+        keep, out = {}, []
+        for f in failures:
+            k = keep.get(f["signature"], 0)
+            if k < 5:
+                out.append(f)
+            keep[f["signature"]] = k + 1
+        stats["failures_by_signature"] = keep
+        stats["sentences"] = ["not-increasing", "number-reused-by-new-message", "retransmission-of-foreign-number",
+                              "not-journaled", "journaled-differently", "duplicate-error", "stored-counter",
+                              "final-counter", "frame-without-number"]
+        ctx.oracle_stats = stats
+        return out
+    finally:
+        m.finish()
+        m.close()
+
+
+def replay(ctx, rp):
+    m = Machine()
+    try:
+        scn, paused, letters = entry_scn(rp["input"])
+        f = oracle_run(m, scn, paused, letters)
+        print("replay:", " ".join(letters), "->", (f or {}).get("signature"), (f or {}).get("what"))
+        return bool(f) and f["signature"] == rp["signature"]
+    finally:
+        m.finish()
+        m.close()
